@@ -480,33 +480,37 @@ func SharedTypes(p *an.Prog, roots []*types.Named) map[*types.TypeName]bool {
 			}
 		}
 	}
-	var visit func(t types.Type, depth int)
-	visit = func(t types.Type, depth int) {
+	// byRef: the type was reached through a pointer/map/slice/interface (a heap object of its own);
+	// a struct held by value inside another struct is part of its owner's location.
+	var visit func(t types.Type, depth int, byRef bool)
+	visit = func(t types.Type, depth int, byRef bool) {
 		if depth > 12 {
 			return
 		}
 		switch x := t.(type) {
 		case *types.Pointer:
-			visit(x.Elem(), depth+1)
+			visit(x.Elem(), depth+1, true)
 		case *types.Slice:
-			visit(x.Elem(), depth+1)
+			visit(x.Elem(), depth+1, true)
 		case *types.Array:
-			visit(x.Elem(), depth+1)
+			visit(x.Elem(), depth+1, byRef)
 		case *types.Map:
-			visit(x.Key(), depth+1)
-			visit(x.Elem(), depth+1)
+			visit(x.Key(), depth+1, true)
+			visit(x.Elem(), depth+1, true)
 		case *types.Named:
 			if x.Obj().Pkg() == nil || !strings.HasPrefix(x.Obj().Pkg().Path(), an.Module) {
 				return
 			}
 			switch u := x.Underlying().(type) {
 			case *types.Struct:
-				if out[x.Obj()] {
-					return
+				if byRef {
+					if out[x.Obj()] {
+						return
+					}
+					out[x.Obj()] = true
 				}
-				out[x.Obj()] = true
 				for i := 0; i < u.NumFields(); i++ {
-					visit(u.Field(i).Type(), depth+1)
+					visit(u.Field(i).Type(), depth+1, false)
 				}
 			case *types.Interface:
 				if u.NumMethods() == 0 {
@@ -517,21 +521,21 @@ func SharedTypes(p *an.Prog, roots []*types.Named) map[*types.TypeName]bool {
 						continue
 					}
 					if types.Implements(m, u) || types.Implements(types.NewPointer(m), u) {
-						visit(m, depth+1)
+						visit(m, depth+1, true)
 					}
 				}
 			default:
-				visit(x.Underlying(), depth+1)
+				visit(x.Underlying(), depth+1, byRef)
 			}
 		case *types.Struct:
 			for i := 0; i < x.NumFields(); i++ {
-				visit(x.Field(i).Type(), depth+1)
+				visit(x.Field(i).Type(), depth+1, false)
 			}
 		}
 	}
 	for _, r := range roots {
 		if r != nil {
-			visit(r, 0)
+			visit(r, 0, true)
 		}
 	}
 	return out
